@@ -78,7 +78,30 @@ class C08(Prop):
             "seg": gen.segmentation(),
             # None and 0 both DISABLE the close timeout (documented); 30 s is far beyond these histories
             "close_timeout": st.sampled_from([None, None, 0, 30.0]),
+            # an earlier connection in the same process (same WebSocket object or another one) and how it ended
+            "prelude": gen.prelude(),
         })
+
+    def enumerations(self, tier):
+        def after_every_prelude():
+            # a small battery of closing handshakes after EVERY way an earlier connection can have ended
+            text = {"kind": "text", "payload": ["str", "m\u00e9"], "forms": [0]}
+            battery = [
+                {"mode": "server_first", "server_close": {"kind": "close", "code": 1000, "reason": "bye"}},
+                {"mode": "server_first", "server_close": {"kind": "close", "code": 1001, "reason": "caf\u00e9 \u20ac"}},
+                {"mode": "server_first", "server_close": {"kind": "close", "code": None}},
+                {"mode": "client_first", "server_close": {"kind": "close", "code": 1000, "reason": "ok then"}},
+                {"mode": "client_only", "server_close": {"kind": "close", "code": 1000, "reason": ""}},
+            ]
+            for kind in build.PRELUDE_KINDS:
+                for same in (True, False):
+                    for end in build.PRELUDE_ENDS:
+                        for b in battery:
+                            yield dict({"pre": [text], "mid": [text], "close_at": ["msg", 0], "close_args": [1000, "done"],
+                                        "sends": [], "again": False, "eof": "after_pause", "seg": "whole",
+                                        "close_timeout": 30.0, "prelude": {"kind": kind, "same": same, "end": end}}, **b)
+        return [Enumeration("closing_handshakes_after_every_kind_of_earlier_connection", after_every_prelude,
+                            exhaustive=True)]
 
     def run_case(self, case):
         mode = case["mode"]
